@@ -68,6 +68,8 @@ bool have_arena();
 void guard_range(void *p, size_t len, int prot);
 // owners of library-scope blocks/mappings still live (sorted, unique) -- for leak signatures
 std::vector<std::string> live_owners(int op_index = -1);
+// is the address inside a live library-scope block or mapping? (no allocation; callable from the TSan callback)
+bool in_live_library_block(const void *p);
 // block lookup for reporting
 std::string describe_addr(const void *p);
 // address relation probe for evidence: does `a` (new block) equal an address that an earlier block had?
